@@ -148,6 +148,7 @@ inductive Op where
   | vecStrIn (d s n l : Nat)          -- the `push_back(std::string(BBB, ShroudLenTrim(BBB, len)))` loop
   | vecStrOut (s n l v : Nat)         -- the `ShroudStrCopy(BBB, len, v[i].data(), v[i].size())` loop
   | vecStrDecl (d : Nat)              -- `std::vector<std::string> d;`
+  | structCast (d s : Nat)            -- `T *d = static_cast<T *>(static_cast<void *>({c_addr}s))`
   | opaque (code : Nat)               -- not modelled
   deriving Repr, DecidableEq
 
@@ -207,6 +208,7 @@ def Op.ofRaw : Nat × List Nat → Op
   | (90, [d, s, n, l]) => .vecStrIn d s n l
   | (91, [s, n, l, v]) => .vecStrOut s n l v
   | (92, [d]) => .vecStrDecl d
+  | (93, [d, s]) => .structCast d s
   | (c, _) => .opaque c
 
 /-- the array context struct (`<lib>_SHROUD_array`) as far as the wrappers fill and read it -/
@@ -247,6 +249,7 @@ inductive Val where
   | carr (n len : Nat) (b : Buf)  -- Fortran `character(len=len) :: x(n)`: n*len contiguous bytes
   | ptrs (l : List Buf)  -- `char **`: the blocks the pointers designate
   | vstr (l : List (List Nat))  -- std::vector<std::string>
+  | rec (fields : List Int)  -- a struct value (its members)
   | ref (addr : Nat) (a : List Int)  -- a C pointer / Fortran pointer: address and the elements found there
   | null
   deriving Repr, DecidableEq
@@ -574,6 +577,14 @@ def execOp (o : Op) (s : St) : Res St :=
       | .oob => .oob
     | _, _, _, _ => .oob
   | .vecStrDecl d => .ok (s.set d (.vstr []))
+  | .structCast d src =>
+    -- format field `c_addr` (variable 15: 1 = `&`, 0 = none) and whether the wrapper's parameter is a pointer
+    -- (variable 16).  `&` on a by-value struct, nothing on a pointer: `d` designates the caller's struct;
+    -- `&` on a pointer parameter would hand over the bytes of the pointer itself
+    match s.int 15, s.int 16, s.get src with
+    | some a, some isPtr, some (.rec _) =>
+      if (a == 1) != (isPtr == 1) then .ok { s with alias := assocSet s.alias d (s.resolve src) } else .oob
+    | _, _, _ => .oob
   | .ifEmpty _ | .else_ | .endIf => .ok s
   | .opaque _ => .oob
 
@@ -677,6 +688,12 @@ def boundary (C : CSpec) (fs : St) : Res St :=
   let cs0 : St := match fs.get 14 with
     | some v => ⟨[(14, v)], [], 0, 0⟩
     | none => ⟨[], [], 0, 0⟩
+  let cs0 := match fs.get 15 with
+    | some v => cs0.set 15 v
+    | none => cs0
+  let cs0 := match fs.get 16 with
+    | some v => cs0.set 16 v
+    | none => cs0
   bindAll C fs (if C.bufArgs.isEmpty then [1] else C.bufArgs) cs0
 
 /-- the variable handed to the library (`C_call_list`): the C++ local when the entry declares one -/
@@ -1078,6 +1095,36 @@ def typeGenericGuards (cs : List Nat) : List Nat := cs
 /-- `process_assumed_rank`: one fortran_generic variant per rank in
     `range(F_assumed_rank_min, F_assumed_rank_max + 1)` -/
 def assumedRanks (lo hi : Nat) : List Nat := (List.range (hi + 1 - lo)).map (· + lo)
+
+/-! ### attributes of the bind(C) interface that license compiler optimisations; C-side dereference fields -/
+
+/-- what `wrap_function_interface` looks at to decide the PURE prefix -/
+structure IfaceD where
+  isFunction : Bool
+  /-- `+pure` attribute -/
+  pureAttr : Bool
+  /-- const member function -/
+  funcConst : Bool
+  /-- the result is a shadow (class) type: the capsule argument is assigned to -/
+  resultShadow : Bool
+  /-- the C result block has a context buf_arg: the context argument is assigned to -/
+  resultCtx : Bool
+  /-- intents of the parameters (part ids: 40 in, 41 out, 42 inout) -/
+  intents : List Nat
+  deriving Repr, DecidableEq
+
+/-- `F_C_pure_clause = "pure "` -/
+def interfacePure (d : IfaceD) : Bool :=
+  !d.resultShadow && !d.resultCtx && d.isFunction && (d.pureAttr || (d.funcConst && d.intents.all (· == 40)))
+
+/-- `wrapc.compute_c_deref`: (c_deref is `*`, c_member is `->`, c_addr is `&`) for a parameter, from the
+    local-variable kind of its block (0 none, 1 scalar, 2 pointer) and whether the declaration is
+    indirect (pointer OR reference: the C wrapper's parameter is a pointer in both cases) -/
+def computeCDeref (localVar : Nat) (isIndirect : Bool) : Bool × Bool × Bool :=
+  if localVar == 1 then (false, false, true)
+  else if localVar == 2 then (true, true, false)
+  else if isIndirect then (true, true, false)
+  else (false, false, true)
 
 /-! ### `generic_function`: which C function each fortran_generic clone calls -/
 
